@@ -654,7 +654,222 @@ def rule_j(ctx: Ctx) -> None:
     ctx.min_instances("nested_scan_sites", n, 1)
 
 
-RULES = [rule_a, rule_b, rule_c, rule_d, rule_e, rule_f, rule_g, rule_h, rule_i, rule_j]
+# ---- C13.k: every emitted token has a span of its own ----------------------------------------
+def _span_events(e: ast.AST | None, emitting: set[str], in_add: bool) -> list[list[tuple[str, ast.AST]]]:
+    """Alternative event sequences (evaluation order) of one expression/statement."""
+    if e is None:
+        return [[]]
+    if isinstance(e, (ast.FunctionDef, ast.AsyncFunctionDef, ast.Lambda, ast.ClassDef)):
+        return [[]]
+    if isinstance(e, ast.IfExp):
+        out = []
+        for pre in _span_events(e.test, emitting, in_add):
+            for alt in (e.body, e.orelse):
+                for post in _span_events(alt, emitting, in_add):
+                    out.append(pre + post)
+        return out[:16]
+    seqs: list[list[tuple[str, ast.AST]]] = [[]]
+    kids = list(ast.iter_child_nodes(e))
+    if isinstance(e, ast.Assign):
+        kids = [e.value]
+    for k in kids:
+        alts = _span_events(k, emitting, in_add)
+        seqs = [a + b for a in seqs for b in alts][:16]
+    own: tuple[str, ast.AST] | None = None
+    if isinstance(e, ast.Call):
+        cn = call_name(e) or ""
+        if cn == "self._add" or (in_add and cn == "self.tokens.append"):
+            own = ("ADD", e)
+        elif cn == "self._scan":
+            own = ("SCAN", e)
+        elif cn == "self._advance":
+            back = bool(e.args) and isinstance(e.args[0], ast.UnaryOp) and isinstance(e.args[0].op, ast.USub)
+            if not back:
+                own = ("ADV", e)
+        elif cn.startswith("self.") and cn[5:] in emitting:
+            own = ("CALL:" + cn[5:], e)
+    elif isinstance(e, ast.Assign) and any(norm(t_) == "self._start" for t_ in e.targets):
+        own = ("START0" if norm(e.value) == "self._current" else "START", e)
+    if own:
+        seqs = [a + [own] for a in seqs]
+    return seqs
+
+
+def rule_k(ctx: Ctx) -> None:
+    from ..cfg import CFG, forward
+
+    ctx.rule("C13.k", "every emitted token has a span of its own: on every path through the scanner's methods, between two token emissions (self._add, or a call of a "
+                      "method that emits) self._start is re-assigned — otherwise the second token is stamped with a span that contains the first (tokens overlap). "
+                      "A token emitted right after `self._start = self._current` is empty (a synthesised token) and overlaps nothing")
+    tc = ctx.repo.cls(TC, "TokenizerCore")
+    methods = {n_: md for n_, md in tc.methods().items() if n_ not in ("tokenize", "__init__", "reset")}
+    # methods that may emit (fixpoint over self-calls)
+    emitting: set[str] = set()
+    changed = True
+    while changed:
+        changed = False
+        for n_, md in methods.items():
+            if n_ in emitting:
+                continue
+            for c in walk_no_nested(md):
+                if isinstance(c, ast.Call):
+                    cn = call_name(c) or ""
+                    if cn in ("self._add", "self._scan") or (n_ == "_add" and cn == "self.tokens.append") or (cn.startswith("self.") and cn[5:] in emitting):
+                        emitting.add(n_)
+                        changed = True
+                        break
+    F, E, D = "fresh", "empty", "used"
+    summary: dict[str, dict[str, frozenset]] = {}
+    needs_clean: dict[str, bool] = {n_: False for n_ in emitting}
+    violations: dict[tuple[str, str], tuple[ast.AST, str]] = {}
+
+    def step(states: frozenset, ev: tuple[str, ast.AST], lab: object, is_test: bool, where: str, record: bool) -> frozenset:
+        kind, node = ev
+        out = set()
+        for s_ in states:
+            if kind == "ADD":
+                if s_ == D and record:
+                    violations.setdefault((where, norm(node, 60)), (node, "a token has already been emitted with the current self._start"))
+                out.add(E if s_ == E else D)
+            elif kind == "SCAN":
+                out.add(D)
+            elif kind == "ADV":
+                out.add(F if s_ == E else s_)
+            elif kind == "START0":
+                out.add(E)
+            elif kind == "START":
+                out.add(F)
+            elif kind.startswith("CALL:"):
+                callee = kind[5:]
+                if s_ == D and needs_clean.get(callee) and record:
+                    violations.setdefault((where, norm(node, 60)), (node, f"{callee}() emits a token with the current self._start, which an earlier token already used"))
+                sm = summary.get(callee, {})
+                if is_test and lab is True:
+                    res = sm.get("true", frozenset()) | sm.get("other", frozenset())
+                elif is_test and lab is False:
+                    res = sm.get("false", frozenset()) | sm.get("other", frozenset())
+                else:
+                    res = frozenset().union(*sm.values()) if sm else frozenset()
+                # the callee was analysed from a fresh entry; an entry with a used span stays used unless the callee re-assigns
+                for r in res:
+                    out.add(D if (s_ == D and r in (F,)) else r)
+                if not res:
+                    pass  # no exit state known yet (fixpoint bottom)
+        return frozenset(out)
+
+    def analyse(name: str, record: bool) -> tuple[dict[str, frozenset], bool]:
+        md = methods[name]
+        where = f"{tc.key}.{name}"
+        cfg = CFG(md)
+        cache: dict[int, list[list[tuple[str, ast.AST]]]] = {}
+
+        def evs(n):
+            if n.id not in cache:
+                if n.ast is None or n.kind in ("join", "entry", "exit", "raise"):
+                    cache[n.id] = [[]]
+                elif n.kind == "for":
+                    cache[n.id] = _span_events(n.ast.iter, emitting, name == "_add")  # type: ignore[attr-defined]
+                elif n.kind == "with":
+                    cache[n.id] = [[]]
+                else:
+                    cache[n.id] = _span_events(n.ast, emitting, name == "_add")
+            return cache[n.id]
+
+        def tr(n, lab, st):
+            if lab == "exc":
+                return st  # the statement raised instead of completing: an emission that raises after appending its token is not an idiom of this scanner
+            outs = set()
+            is_test = n.kind == "cond" and isinstance(n.ast, ast.Call)
+            for seq in evs(n):
+                cur = st
+                for ev in seq:
+                    last = ev is seq[-1]
+                    cur = step(cur, ev, lab, is_test and last and ev[1] is n.ast, where, record)
+                outs |= cur
+            return frozenset(outs)
+
+        IN = forward(cfg, frozenset({F}), tr, lambda a, b: a | b)
+        exits: dict[str, set] = {"true": set(), "false": set(), "other": set()}
+        for n in cfg.nodes:
+            if IN.get(n) is None:
+                continue
+            for succ, lab in n.succ:
+                if succ is not cfg.exit:
+                    continue
+                out = tr(n, lab, IN[n])
+                kind = "false"
+                if isinstance(n.ast, ast.Return) and n.ast.value is not None:
+                    v = n.ast.value
+                    if isinstance(v, ast.Constant):
+                        kind = "true" if v.value else "false"
+                    else:
+                        kind = "other"
+                exits[kind] |= out
+        # does some path reach an emission before self._start is assigned?  (entry marked with a probe state)
+        return {k: frozenset(v) for k, v in exits.items() if v}, False
+
+    # needs_clean: a method whose first emission on some path is not preceded by a self._start assignment
+    def first_emission_unguarded(name: str) -> bool:
+        md = methods[name]
+        cfg = CFG(md)
+        P = "probe"
+
+        def tr(n, lab, st):
+            if st != P:
+                return st
+            if n.ast is None or n.kind in ("join", "entry", "exit", "raise", "with"):
+                return st
+            src = n.ast.iter if n.kind == "for" else n.ast  # type: ignore[attr-defined]
+            for seq in _span_events(src, emitting, name == "_add"):
+                for kind, _ in seq:
+                    if kind in ("START", "START0", "SCAN"):
+                        return "assigned"
+                    if kind == "ADD" or (kind.startswith("CALL:") and needs_clean.get(kind[5:])):
+                        return "emits"
+            return st
+
+        IN = forward(cfg, P, tr, lambda a, b: "emits" if "emits" in (a, b) else (P if P in (a, b) else a))
+        for n in cfg.nodes:
+            if IN.get(n) == P:
+                for succ, lab in n.succ:
+                    if tr(n, lab, P) == "emits":
+                        return True
+        return False
+
+    for _ in range(6):
+        before = dict(needs_clean)
+        for n_ in sorted(emitting):
+            if n_ != "_scan":
+                needs_clean[n_] = first_emission_unguarded(n_)
+        if before == needs_clean:
+            break
+    for _ in range(8):
+        before_s = dict(summary)
+        for n_ in sorted(emitting):
+            if n_ == "_scan":
+                summary[n_] = {"false": frozenset({D})}
+                continue
+            summary[n_], _x = analyse(n_, False)
+        if before_s == summary:
+            break
+    n_add = 0
+    for n_ in sorted(emitting):
+        analyse(n_, True)
+        md = methods[n_]
+        for c in walk_no_nested(md):
+            if isinstance(c, ast.Call) and ((call_name(c) or "") == "self._add" or (n_ == "_add" and call_name(c) == "self.tokens.append")):
+                n_add += 1
+                key = (f"{tc.key}.{n_}", norm(c, 60))
+                if key not in violations:
+                    ctx.ok(f"{key[0]}|{key[1]}", None)
+    for (where, txt), (node, why) in sorted(violations.items()):
+        ctx.fail(tc.module, node, where, node, f"`{txt}`: {why} — the two tokens are stamped with overlapping spans (start/end of one of them do not select its own lexeme)")
+    ctx.count("emitting_methods", len(emitting))
+    ctx.count("emission_sites", n_add)
+    ctx.min_instances("emission_sites", n_add, 15)
+
+
+RULES = [rule_a, rule_b, rule_c, rule_d, rule_e, rule_f, rule_g, rule_h, rule_i, rule_j, rule_k]
 EXPLANATION = (
     "Representation invariants of the scanner cursor checked symbolically on every block that writes _current (linear "
     "normal form of offsets with local resolution, so the str.find and alnum fast paths are covered), the token stamp, "
